@@ -9,6 +9,8 @@ open Proto
   values:  N | B0 | B1 | I<int> | S<text> | P<text> | E<int> | L[<text>,…] | T[<text>,…] | D[<text>:<text>,…]
            | Y<ctor>:<text> | O<id>          (`L`, `T`, `D` alone = empty collection)
   types:   bool path str int dict list tuple other<k> enum0:<text>=<int>,…
+  ops:     reset | cv … (a descriptor of a hand-written metaclass) | attr … (an attribute of a decorated class: -> cv | plain)
+           | assign | delete | setenv | unsetenv | update | get | envname | parse | render | join | pyint | isupper
 -/
 
 namespace Config
@@ -130,6 +132,17 @@ def handle (ds : DState) (line : String) : DState × String :=
     | some c, some n, some ty, some dflt, some p, some ov, some pre, some m =>
       ({ ds with decl := ds.decl ++ [⟨c, n, dflt, ty, p, ov, pre, m⟩] }, "ok")
     | _, _, _, _, _, _, _, _ => bad
+  -- one attribute of the body of a class decorated with `config(pre)`: the model's decorator decides what it becomes
+  | ["attr", c, n, ty, dflt, p, ov, pre, m] =>
+    match nat? c, decText n, decTy ty, decV dflt, optParser p, decText ov, decText pre, decText m with
+    | some c, some n, some ty, some dflt, some p, some ov, some pre, some m =>
+      match decorate1 src c pre m ⟨n, dflt, ty, p, ov⟩ with
+      | some cv => ({ ds with decl := ds.decl ++ [cv] }, "cv")
+      | none => (ds, "plain")
+    | _, _, _, _, _, _, _, _ => bad
+  | ["isupper", t] => match decText t with
+    | some t => (ds, if pyIsUpper t then "1" else "0")
+    | none => bad
   | ["assign", c, n, v] => match nat? c, decText n, decV v with
     | some c, some n, some v => stepWith (.assign c n v)
     | _, _, _ => bad
